@@ -447,6 +447,8 @@ func parseContractFile(rel, src string) (*pkgSpec, error) {
 				w2, r3 := splitWord(r2)
 				switch w2 {
 				case "vars":
+					// name type | name=local type: the clause's name for a local variable
+					// (needed when the local is a parameter that the loop reassigns)
 					for _, d := range splitTop(r3, ',') {
 						n, t := splitWord(strings.TrimSpace(d))
 						ls.Vars = append(ls.Vars, [2]string{n, t})
@@ -1015,8 +1017,12 @@ var _ = verif_fresh
 			var vs []string
 			var names []string
 			for _, v := range ls.Vars {
-				vs = append(vs, v[0]+" "+v[1])
-				names = append(names, v[0])
+				nm, local := v[0], v[0]
+				if i := strings.Index(nm, "="); i > 0 {
+					nm, local = v[0][:i], v[0][i+1:]
+				}
+				vs = append(vs, nm+" "+v[1])
+				names = append(names, local)
 			}
 			params := join(plist, strings.Join(oldParams, ", "), strings.Join(vs, ", "))
 			for k, cl := range ls.Invariants {
